@@ -192,7 +192,23 @@ func (w *World) PostOp(s *vos.Sched, op *vos.Op) {
 	if !w.inDir(op.Path) && op.Kind != "readdir" {
 		return
 	}
-	switch op.Kind {
+	// other ways of bringing a lock file into existence count as acquisitions too
+	if ok && (op.Kind == "link" || op.Kind == "symlink" || op.Kind == "rename") && strings.HasSuffix(vos.PathClass(op.Dst), "lock") && w.inDir(op.Dst) {
+		dcls := vos.PathClass(op.Dst)
+		w.LockCreates++
+		if li := w.locks[op.Dst]; li != nil && li.owner != op.Proc {
+			w.violate([]string{"C08"}, "lock-acquired-while-held|"+dcls, "p%d put %s in place (%s) while p%d holds it", op.Proc, base(op.Dst), op.Kind, li.owner)
+		}
+		w.locks[op.Dst] = &lockInfo{owner: op.Proc, ino: inoOf(op.Dst)}
+		w.owned[op.Dst] = op.Proc
+	}
+	kind := op.Kind
+	if kind == "writefile" && strings.HasSuffix(cls, "lock") && ok {
+		if _, held := w.locks[op.Path]; !held || w.locks[op.Path].owner != op.Proc {
+			kind = "create" // WriteFile created (or clobbered) the lock file
+		}
+	}
+	switch kind {
 	case "create", "tempfile":
 		if strings.HasSuffix(cls, "lock") {
 			if ok {
